@@ -800,11 +800,12 @@ class TimedStore(typing.Generic[KT]):
         callback(entry, address)
 
     def stop_all_for_address(self, address: _T_SOCKADDR) -> None:
-        for entry, (callback, handle) in self.store[address].items():
+        entries = list(self.store[address].items())
+        self.store[address].clear()
+        for entry, (callback, handle) in entries:
             if handle:
                 handle.cancel()
-            asyncio.get_event_loop().call_soon(callback, entry, address)
-        self.store[address].clear()
+            callback(entry, address)
 
     def stop_all(self) -> None:
         for addr in self.store.keys():
@@ -833,7 +834,7 @@ class TimedStore(typing.Generic[KT]):
             )
             return
 
-        asyncio.get_event_loop().call_soon(callback, entry, address)
+        callback(entry, address)
 
     def entries(self) -> typing.Iterator[KT]:
         return itertools.chain.from_iterable(x.keys() for x in self.store.values())
